@@ -107,6 +107,8 @@ pub struct StreamCase {
     /// request headers that have nothing to do with the coding decision (index into NOISE_HEADERS;
     /// 0 = none)
     pub noise: u8,
+    /// request version, as `ServeCase::version`
+    pub version: u8,
 }
 
 /// Request header sets that must not influence `streaming_body`.
@@ -121,10 +123,10 @@ pub const NOISE_HEADERS: [&[(&str, &str)]; 6] = [
 
 impl StreamCase {
     pub fn raw(chunk: usize, ops: Vec<Op>) -> StreamCase {
-        StreamCase { method: "GET".into(), accept_encoding: None, chunk, gzip_level: None, via_parts: false, payload: Payload::Hash, ops, extra_polls: 2, fresh_wakers: false, prelude: 0, builder_detour: 0, noise: 0 }
+        StreamCase { method: "GET".into(), accept_encoding: None, chunk, gzip_level: None, via_parts: false, payload: Payload::Hash, ops, extra_polls: 2, fresh_wakers: false, prelude: 0, builder_detour: 0, noise: 0, version: 0 }
     }
     pub fn gzip(chunk: usize, level: u32, ops: Vec<Op>) -> StreamCase {
-        StreamCase { method: "GET".into(), accept_encoding: Some(b"gzip".to_vec()), chunk, gzip_level: Some(level), via_parts: false, payload: Payload::Hash, ops, extra_polls: 2, fresh_wakers: false, prelude: 0, builder_detour: 0, noise: 0 }
+        StreamCase { method: "GET".into(), accept_encoding: Some(b"gzip".to_vec()), chunk, gzip_level: Some(level), via_parts: false, payload: Payload::Hash, ops, extra_polls: 2, fresh_wakers: false, prelude: 0, builder_detour: 0, noise: 0, version: 0 }
     }
     pub fn to_json(&self) -> Value {
         json!({
@@ -140,6 +142,7 @@ impl StreamCase {
             "prelude": self.prelude,
             "builder_detour": self.builder_detour,
             "noise": self.noise,
+            "version": self.version,
         })
     }
     pub fn from_json(v: &Value) -> StreamCase {
@@ -163,6 +166,7 @@ impl StreamCase {
             prelude: v["prelude"].as_u64().unwrap_or(0) as u8,
             builder_detour: v["builder_detour"].as_u64().unwrap_or(0) as u8,
             noise: v["noise"].as_u64().unwrap_or(0) as u8,
+            version: v["version"].as_u64().unwrap_or(0) as u8,
         }
     }
 }
@@ -281,6 +285,7 @@ pub fn build(case: &StreamCase) -> Option<(http::Response<SBody>, Option<SWriter
     if let Some(ae) = &case.accept_encoding {
         req.headers_mut().insert(http::header::ACCEPT_ENCODING, http::HeaderValue::from_bytes(ae).ok()?);
     }
+    *req.version_mut() = crate::e1::version_of(case.version);
     for (k, v) in NOISE_HEADERS[case.noise as usize % NOISE_HEADERS.len()] {
         req.headers_mut().append(http::HeaderName::from_bytes(k.as_bytes()).ok()?, http::HeaderValue::from_str(v).ok()?);
     }
